@@ -141,3 +141,25 @@ func c10Selector(c *fw.Ctx, rng *fw.RNG) {
 		}
 	}
 }
+
+// c10GrowthProbe walks a three-edge recursive selector over a 16-deep one-child list under a
+// 1.5 GiB address-space limit (separate process). Cost is 3^depth on the unchanged tree.
+func c10GrowthProbe([]string) int {
+	fwSetMemLimit(1536 << 20)
+	v := model.Int(1)
+	for d := 0; d < 16; d++ {
+		v = model.List(v)
+	}
+	root, _ := build.Plain(basicnode.Prototype.Any, v)
+	e := func() *selgen.Sel { return &selgen.Sel{Kind: "all", Next: &selgen.Sel{Kind: "edge"}} }
+	s := &selgen.Sel{Kind: "rec", Limit: -1, Seq: &selgen.Sel{Kind: "union", Members: []*selgen.Sel{{Kind: "match"}, e(), e(), e()}}}
+	sel, err := selector.CompileSelector(fnode.New(s.Spec()))
+	if err != nil {
+		fmt.Println("compile error:", err)
+		return 3
+	}
+	n := 0
+	err = traversal.WalkAdv(root, sel, func(traversal.Progress, datamodel.Node, traversal.VisitReason) error { n++; return nil })
+	fmt.Println("walk finished, visits:", n, "err:", err)
+	return 0
+}
